@@ -489,9 +489,9 @@ impl RenderTable {
         let mut col_positions = BTreeSet::new();
         col_positions.insert(0);
         for row in &rows {
-            let mut col = 0;
+            let mut col = 0usize;
             for cell in row.cells() {
-                col += cell.colspan;
+                col = col.saturating_add(cell.colspan);
                 col_positions.insert(col);
             }
         }
@@ -503,12 +503,14 @@ impl RenderTable {
             .collect();
 
         for row in &mut rows {
-            let mut pos = 0;
+            let mut pos = 0usize;
             let mut mapped_pos = 0;
             for cell in row.cells_mut() {
-                let nextpos = pos + cell.colspan.max(1);
+                let nextpos = pos.saturating_add(cell.colspan.max(1));
                 let next_mapped_pos = *colmap.get(&nextpos).unwrap();
-                cell.colspan = next_mapped_pos - mapped_pos;
+                // Positions which saturated can coincide; every cell still spans
+                // at least one column.
+                cell.colspan = (next_mapped_pos - mapped_pos).max(1);
                 pos = nextpos;
                 mapped_pos = next_mapped_pos;
             }
@@ -1086,7 +1088,7 @@ fn tbody_to_render_tree<'a, T: Write>(
                 row.cells()
                     // Treat the column as having colspan 1 for initial counting.
                     .map(|cell| (cell.colspan == 0, cell.colspan.max(1)))
-                    .fold((false, 0), |a, b| (a.0 || b.0, a.1 + b.1))
+                    .fold((false, 0usize), |a, b| (a.0 || b.0, a.1.saturating_add(b.1)))
             })
             .collect::<Vec<_>>();
 
